@@ -29,13 +29,20 @@ struct Worker {
     bool guard = false;      // use ReadLock / WriteLock objects instead of the raw calls
     bool holdsWrite = false;
     bool wantWrite = false;
+    bool holdsAux = false;   // holds a read lock on the second, unrelated Resource during the whole case
     // monitor bookkeeping
     long arrival = -1;       // arrival number of the pending / granted request
     bool parkedObserved = false;
+    // free exploration only
+    enum Phase { P_IDLE, P_REQUESTING, P_PARKED, P_HOLDING, P_RELEASING } phase = P_IDLE;
+    long issuedAt = 0, parkedAt = 0;
+    std::vector<int64_t> program;
+    size_t pc = 0;
 };
 
 struct Run {
     Resource *res = nullptr;
+    Resource *aux = nullptr;
     std::vector<Worker> w;
     long arrivals = 0;
     int labelNo = 0;
@@ -46,10 +53,12 @@ struct Run {
     void workerMain(int t) {
         tulz::rwp::ReadLock *rl = nullptr;
         tulz::rwp::WriteLock *wl = nullptr;
+        // instances are independent: holding a read lock on an unrelated Resource must change nothing
+        if (w[t].holdsAux) aux->lockRead();
         for (;;) {
             vs::point(TAG_IDLE);
             Cmd c = w[t].cmd;
-            if (c == C_EXIT) return;
+            if (c == C_EXIT) { if (w[t].holdsAux) aux->unlockRead(); return; }
             bool write = c == C_LOCK_W;
             if (w[t].guard) { if (write) wl = new tulz::rwp::WriteLock(*res); else rl = new tulz::rwp::ReadLock(*res); }
             else { if (write) res->lockWrite(); else res->lockRead(); }
@@ -180,7 +189,10 @@ struct Run {
                 if (v->reason == vs::R_PRE_NOTIFY) { runUntilStop((int) t); progressed = true; }
                 else if (parked((int) t) && v->notified && vs::enabled(v)) {
                     runUntilStop((int) t);
-                    if (holding((int) t)) { w[t].holdsWrite = w[t].wantWrite; onGranted((int) t); monitorHolders(); }
+                    if (holding((int) t)) {
+                        if (freeMode) { w[t].phase = Worker::P_HOLDING; freeGranted((int) t); }
+                        else { w[t].holdsWrite = w[t].wantWrite; onGranted((int) t); monitorHolders(); }
+                    }
                     progressed = true;
                 }
             }
@@ -219,20 +231,118 @@ struct Run {
         for (size_t t = 0; t < w.size(); ++t) {
             if (!atIdle((int) t)) return;
             w[t].cmd = C_EXIT;
-            vs::step(w[t].vt);
+            for (int k = 0; k < 50 && !w[t].vt->finished && vs::enabled(w[t].vt); ++k) vs::step(w[t].vt);
             vs::reap(w[t].vt);
         }
         delete res;
-        res = nullptr;
+        delete aux;
+        res = aux = nullptr;
+    }
+
+    // ---- free exploration (failing-input search only; the model is not involved) -----------------
+    // header [n; 2; seed], then one program line per thread (each entry: bit 0 = write request, bit 1 = use the
+    // ReadLock / WriteLock guard objects). Every scheduling point of every thread — including the point before
+    // each acquisition of the internal mutex — is a choice drawn from the seed; only the monitors judge.
+    bool freeMode = false;
+    long clock = 0;
+    void freeGranted(int t) {
+        w[t].holdsWrite = w[t].wantWrite;
+        // C03 with explicit timestamps: a was observed parked before t's call was issued
+        for (size_t a = 0; a < w.size(); ++a) {
+            if ((int) a == t || w[a].phase != Worker::P_PARKED || !parked((int) a) || w[a].parkedAt > w[t].issuedAt) continue;
+            bool okException = !w[a].wantWrite && !w[t].wantWrite;
+            if (okException)
+                for (size_t c = 0; c < w.size(); ++c)
+                    if (w[c].phase == Worker::P_PARKED && w[c].wantWrite && w[c].parkedAt > w[a].parkedAt && w[c].parkedAt < w[t].issuedAt)
+                        okException = false;
+            if (!okException)
+                complain(std::string("C03: a ") + (w[t].wantWrite ? "write" : "read") + " request of thread " + std::to_string(t) +
+                         " was granted while the " + (w[a].wantWrite ? "write" : "read") + " request of thread " + std::to_string(a) +
+                         ", parked before it was issued, still waits");
+        }
+        monitorHolders();
+    }
+    void freeParked(int t) {
+        if (w[t].wantWrite) return;
+        bool writerAround = false;
+        for (size_t a = 0; a < w.size(); ++a) {
+            if ((int) a == t) continue;
+            if (!(w[a].phase == Worker::P_HOLDING ? w[a].holdsWrite : w[a].wantWrite)) continue;
+            if (w[a].phase == Worker::P_HOLDING || w[a].phase == Worker::P_PARKED) writerAround = true;
+            // a writer inside unlock() still owns the lock until its critical section has run
+            if (w[a].phase == Worker::P_RELEASING && w[a].vt->reason != vs::R_PRE_NOTIFY) writerAround = true;
+            // a writer inside lock() that has not parked yet may already have queued itself
+            if (w[a].phase == Worker::P_REQUESTING) writerAround = true;
+        }
+        if (!writerAround) complain("C12: a reader parked although no writer holds or waits for the lock");
+    }
+    void freeStep(int t) {
+        auto *v = w[t].vt;
+        if (atIdle(t)) {
+            int64_t e = w[t].program[w[t].pc++];
+            bool write = (e & 1) != 0;
+            w[t].cmd = write ? C_LOCK_W : C_LOCK_R;
+            w[t].wantWrite = write;
+            w[t].guard = (e & 2) != 0;
+            w[t].issuedAt = ++clock;
+            w[t].phase = Worker::P_REQUESTING;
+        } else if (holding(t)) {
+            w[t].cmd = C_UNLOCK;
+            w[t].phase = Worker::P_RELEASING;
+        }
+        vs::step(v);
+        if (holding(t) && w[t].phase != Worker::P_HOLDING) { w[t].phase = Worker::P_HOLDING; freeGranted(t); }
+        else if (parked(t) && w[t].phase == Worker::P_REQUESTING) { w[t].phase = Worker::P_PARKED; w[t].parkedAt = ++clock; freeParked(t); }
+        else if (atIdle(t)) w[t].phase = Worker::P_IDLE;
+    }
+    void freeExplore(uint64_t seed) {
+        uint64_t rs = seed * 0x9E3779B97F4A7C15ULL + 12345;
+        auto rnd = [&]() { rs ^= rs << 13; rs ^= rs >> 7; rs ^= rs << 17; return rs; };
+        for (long guardIter = 0; guardIter < 20000; ++guardIter) {
+            std::vector<int> en, sleepers;
+            for (size_t t = 0; t < w.size(); ++t) {
+                auto *v = w[t].vt;
+                if (atIdle((int) t)) { if (w[t].pc < w[t].program.size()) en.push_back((int) t); }
+                else if (parked((int) t) && !v->notified) sleepers.push_back((int) t);
+                else if (vs::enabled(v)) en.push_back((int) t);
+            }
+            if (!sleepers.empty() && rnd() % 40 == 0) { w[sleepers[rnd() % sleepers.size()]].vt->notified = true; continue; } // spurious wake-up
+            if (en.empty()) break;
+            freeStep(en[rnd() % en.size()]);
+        }
+        // bring every thread to a boundary the drive-to-completion oracle understands
+        for (long guardIter = 0; guardIter < 20000; ++guardIter) {
+            bool progressed = false;
+            for (size_t t = 0; t < w.size(); ++t) {
+                auto *v = w[t].vt;
+                if ((v->reason == vs::R_WANT_MUTEX || v->reason == vs::R_CV_ENTRY) && vs::enabled(v)) { freeStep((int) t); progressed = true; }
+            }
+            if (!progressed) break;
+        }
     }
 
     void run(const Case &c) {
         vs::Sched::get().reset();
         int n = (int) c.lines[0][0];
         res = new Resource();
+        aux = new Resource();
         w.resize(n);
+        int64_t auxMask = c.lines[0].size() > 2 && c.lines[0][1] != 2 ? c.lines[0][2] : (c.lines[0].size() > 3 ? c.lines[0][3] : 0);
+        for (int t = 0; t < n; ++t) w[t].holdsAux = ((auxMask >> t) & 1) != 0;
         for (int t = 0; t < n; ++t) w[t].vt = vs::spawn([this, t] { workerMain(t); });
-        for (int t = 0; t < n; ++t) vs::step(w[t].vt); // to the first idle point
+        for (int t = 0; t < n; ++t)   // to the first idle point (through the read lock on the unrelated Resource, never contended)
+            for (int k = 0; k < 50 && !(w[t].vt->reason == vs::R_POINT); ++k) {
+                if (!vs::enabled(w[t].vt)) { complain("a read lock on an unrelated, otherwise unused Resource blocks"); break; }
+                vs::step(w[t].vt);
+            }
+        if (c.lines[0][1] == 2) {
+            freeMode = true;
+            for (int t = 0; t < n && (size_t) t + 1 < c.lines.size(); ++t) w[t].program = c.lines[t + 1];
+            freeExplore(c.lines[0].size() > 2 ? (uint64_t) c.lines[0][2] : 1);
+            emit({2});
+            finish();
+            return;
+        }
         for (size_t i = 1; i < c.lines.size(); ++i) {
             labelNo = (int) i;
             bool en = doLabel(c.lines[i]);
